@@ -2,7 +2,7 @@
    the packet level.  No proofs here. *)
 From Coq Require Import ZArith List Bool.
 Import ListNotations.
-From V Require Import Base.Tree Base.Bytes Base.Parser Pkg.GenTypes Gen.GenPkg Pkg.Iface Pkg.Eed Pkg.All Rx.Model.
+From V Require Import Base.Tree Base.Bytes Base.Parser Pkg.GenTypes Gen.GenPkg Pkg.Iface Pkg.Eed Pkg.All Rx.Model Rx.Consumer.
 Open Scope Z_scope.
 
 Definition packet_of_tree (t : tree) : packet_in :=
@@ -69,20 +69,83 @@ Definition spec_fragmentation (need nenv : nat) (ps0 : Z) (pkts : list packet_in
     (length want =? length got)%nat &&
     forallb (fun wg => tree_eqb (TL (fst wg)) (TL (snd wg))) (combine want got).
 
+(* ---- consumer level (fn 12) *)
+(* what the events of a packet put into the package queue / the error queue *)
+Definition queue_of_events (es : list ev) : list dpkg * nat :=
+  fold_left (fun acc e => match e with
+                          | EvDeliver tok f => (fst acc ++ [(tok, f)], snd acc)
+                          | EvSynthDone => (fst acc ++ [(253, TL [TI 0; TI 0; TI 0])], snd acc)
+                          | EvHeaderOnly h => (fst acc ++ [(-3, h)], snd acc)
+                          | EvErr _ => (fst acc, S (snd acc))
+                          | _ => acc
+                          end) es ([], O).
+
+Definition call_cb (k outcome : Z) : option (nat -> dpkg -> cbres) :=
+  Some (fun nc _ => if (outcome =? 0) then CbContinue
+                    else if Z.of_nat nc =? k then (if outcome =? 1 then CbStop else if outcome =? 2 then CbEof else CbErr)
+                    else CbContinue).
+
+Definition run_call (q : list dpkg) (errs : nat) (c : tree) : tree * list dpkg * nat :=
+  let kind := t_int (t_nth 0 c) in
+  if kind =? 0 then
+    match next_package q errs false with
+    | (NPkg p, r, e) => (TL [TI 0; dpkg_tree p], r, e)
+    | (x, r, e) => (TL [TI (nres_code x)], r, e)
+    end
+  else
+    let cb := if kind =? 1 then call_cb (t_int (t_nth 1 c)) (t_int (t_nth 2 c)) else None in
+    match until (S (S (length q + errs))) q errs true cb O [] with
+    | (u, r, e) => (ures_tree u, r, e)
+    end.
+
+Fixpoint run_calls (q : list dpkg) (errs : nat) (cs : list tree) : list tree * list dpkg * nat :=
+  match cs with
+  | [] => ([], q, errs)
+  | c :: r => let '(t, q1, e1) := run_call q errs c in
+              let '(ts, q2, e2) := run_calls q1 e1 r in
+              (TL [t; TI (zlen q1)] :: ts, q2, e2)
+  end.
+
+Fixpoint run_rounds (need nenv : nat) (st : rxs) (q : list dpkg) (errs : nat) (rounds : list tree) : list tree :=
+  match rounds with
+  | [] => []
+  | rd :: r =>
+    let pkts := map packet_of_tree (t_list (t_nth 0 rd)) in
+    let '(ess, st1) := rx_run need nenv st pkts in
+    let '(dq, de) := queue_of_events (concat ess) in
+    let '(ts, q2, e2) := run_calls (q ++ dq) (errs + de) (t_list (t_nth 1 rd)) in
+    TL ts :: run_rounds need nenv st1 q2 e2 r
+  end.
+
+(* C03 at the consumer level: whenever the last call of a round is one that consumes the rest of the response
+   (nil callback, or a callback that fails) and it does not itself fail, nothing is left queued afterwards *)
+Definition round_drained_ok (rd_in rd_out : tree) : bool :=
+  match rev (t_list (t_nth 1 rd_in)), rev (t_list rd_out) with
+  | c :: _, o :: _ =>
+    let kind := t_int (t_nth 0 c) in
+    let drains := (kind =? 2) || ((kind =? 1) && (t_int (t_nth 2 c) =? 3)) in
+    let code := t_int (t_nth 0 (t_nth 0 o)) in
+    if drains && ((code =? 2) || (code =? 3) || (code =? 7)) then t_int (t_nth 1 o) =? 0 else true
+  | _, _ => true
+  end.
+
 (* fn 10: input (need nenv ps0 (packet ...)) *)
-Definition run (fn : Z) (i : tree) : tree :=
+Definition rx_fn_run (fn : Z) (i : tree) : tree :=
   match fn with
   | 10 =>
     let need := Z.to_nat (t_int (t_nth 0 i)) in
     let nenv := Z.to_nat (t_int (t_nth 1 i)) in
     out_tree (run_pkts need nenv rx_init (t_int (t_nth 2 i)) (map packet_of_tree (t_list (t_nth 3 i))))
-  | _ => tbad
+  | 12 =>
+    TL (run_rounds (Z.to_nat (t_int (t_nth 0 i))) (Z.to_nat (t_int (t_nth 1 i))) rx_init [] O (t_list (t_nth 2 i)))
+  | _ => pkg_run fn i
   end.
 
-Definition spec (fn : Z) (i o : tree) : bool :=
+Definition rx_fn_spec (fn : Z) (i o : tree) : bool :=
   match fn with
   | 10 =>
     spec_fragmentation (Z.to_nat (t_int (t_nth 0 i))) (Z.to_nat (t_int (t_nth 1 i))) (t_int (t_nth 2 i))
                        (map packet_of_tree (t_list (t_nth 3 i))) o
-  | _ => false
+  | 12 => forallb (fun io => round_drained_ok (fst io) (snd io)) (combine (t_list (t_nth 2 i)) (t_list o))
+  | _ => pkg_spec fn i o
   end.
